@@ -649,6 +649,7 @@ impl Engine {
         let burned: u128 = burns.iter().filter(|x| x.0 == self.lst).map(|x| x.1).sum();
         if burned != b || burns.iter().any(|x| x.2 != self.s_addr()) {
             self.v("C03", "burn_batch_total", format!("submission burned {:?} but the batch total is {}", burns, b));
+            self.v("C19", "burn_message_exact", format!("burn message(s) {:?} but the submitted batch total is {}", burns, b));
         }
         let unbond = mul_div(n, b, l).unwrap_or(0);
         // observed expected amount
@@ -1198,6 +1199,7 @@ impl Engine {
                     self.w.faults.abort_at_access = Some(1 + *k as u64 % 40)
                 }
             }
+            FaultOp::ReplyData(m) => self.w.faults.reply_data_mode = 1 + (*m % 2),
             FaultOp::BackgroundTraffic(n) => {
                 self.w.background_traffic(*n as u64);
                 self.stats.fault("F19_background_traffic");
